@@ -6,6 +6,7 @@ import (
 	"github.com/evanoberholster/imagemeta/exif2/ifds"
 	"github.com/evanoberholster/imagemeta/imagetype"
 	"github.com/evanoberholster/imagemeta/meta"
+	"github.com/evanoberholster/imagemeta/verifhook"
 	"github.com/rs/zerolog"
 )
 
@@ -73,9 +74,11 @@ func readCMTBox(b *box, exifReader func(r io.Reader, h meta.ExifHeader) error, i
 		return
 	}
 	if exifReader != nil {
+		verifhook.T("bmff", "cb>", 1, int64(b.remain), int64(ifdType), int64(header.FirstIfdOffset), int64(header.ExifLength))
 		if err = exifReader(b, header); err != nil && logLevelError() {
 			logError().Object("box", b).Object("exifReader", header).Send()
 		}
+		verifhook.T("bmff", "cb<", 1, int64(b.remain))
 	}
 	return header, b.close()
 }
